@@ -80,6 +80,7 @@ type heldView struct {
 	first   uint64
 	blocks  mChain
 	baseID  uint64
+	base    *absState // canonical state the view was aligned to, as of its acquisition
 	same    bool // same entry objects as the previous step's view (hash reused)
 }
 
@@ -317,7 +318,7 @@ func runSequential(r *lib.Run, idx int) {
 		if view.Length() > 0 {
 			overlays++
 		}
-		hv := &heldView{view: *view, step: i, first: h + 1, blocks: chain.suffix(h + 1), baseID: st.Canon[h].ID}
+		hv := &heldView{view: *view, step: i, first: h + 1, blocks: chain.suffix(h + 1), baseID: st.Canon[h].ID, base: st.Canon[h].State}
 		if i > 0 && st.Out != outApplied && sameEntries(&q.held[i-1].view, view) {
 			hv.hash, hv.same = q.held[i-1].hash, true
 		} else {
@@ -332,6 +333,29 @@ func runSequential(r *lib.Run, idx int) {
 				return
 			}
 			r.Count("views_aligned_to_older_head", 1)
+		}
+		// (3b) a view held across a revert of the canonical block it is aligned to: that block is
+		// gone (the head is below it), so a state read through the old view must be refused - or, if
+		// it is answered, be the overlay over the base the view was taken on, never over another block
+		if o.Kind == opHeadDown && i >= 1 {
+			if prev := q.held[i-1]; prev.view.Length() > 0 && prev.first-1 > h && prev.base != nil {
+				ti := len(prev.blocks) - 1
+				ov := newOverlay(prev.base, prev.blocks, ti, modelMerged)
+				reads, mm, err := checkOverlay(&prev.view, q.real.bc, q.s.U, ov, prev.blocks[ti].Number, q.rng)
+				r.Eval(1)
+				r.Count("overlay_reads", reads)
+				switch {
+				case err != nil:
+					r.Count("held_views_refusing_state_after_their_base_block_was_reverted", 1)
+				case mm != nil:
+					q.violate("overlay:held-view-after-revert-of-its-base:"+strings.Fields(mm.What)[0], i,
+						fmt.Sprintf("view [%d,%d] taken over canonical block %d; that block was then reverted (head now %d); a state read through the held view is answered: %s at block %d reads %s, the overlay over the view's own base gives %s",
+							prev.first, prev.blocks.tip(), prev.first-1, h, mm.What, mm.Block, mm.Got, mm.Want), mm)
+					return
+				default:
+					r.Count("held_views_answering_over_their_own_base_after_it_was_reverted", 1)
+				}
+			}
 		}
 		// (4) immutability: the view of the previous step across exactly this
 		// operation (pins the mutating operation), and views taken >= 50 writer
